@@ -3,6 +3,7 @@ from pvrules.mir import is_call, peel, show
 from pvrules.rules import PURE, SELF_FIELD, const_int, count_range, effect_calls
 from . import atomics_common as ac
 from . import local_common as lc
+from . import vec_common as vc
 
 LEVEL = "other"
 EXPLANATION = ("Static MIR rules over src/atomic64.rs, src/value.rs, src/counter.rs: single-cell representation (R1), exactly one atomic "
@@ -101,6 +102,8 @@ def run(ctx):
     ctx.run_rule("R5", lambda c: rule_R5(c, f))
     ctx.run_rule("R6", lambda c: lc.rule_local_counter(c, f, "R6"))
     ctx.run_rule("R7", lambda c: rule_R7(c, f))
+    # counters that are children of a vector: racing first requests must yield ONE child, or increments on the orphan are lost (shared with C10.R2)
+    ctx.run_rule("R8", lambda c: vc.rule_double_checked_creation(c, f, "R8"))
     if ctx.tier == "thorough":
         for cfgname in ("plain", "nightlyproc", "push"):
             g = ctx.facts(cfgname)
